@@ -97,6 +97,8 @@ pub fn generate(prop: &str, tier: &str, seed: u64, w: &mut dyn Write) {
         "C01" => crate::gen_sigma::gen_c01(&mut o, tier, seed),
         "C02" => crate::gen_sigma::gen_c02(&mut o, tier, seed),
         "C03" => crate::gen_sigma::gen_c03(&mut o, tier, seed),
+        "C05" => crate::gen_sigma::gen_c05(&mut o, tier, seed),
+        "C20" => crate::gen_sigma::gen_c20(&mut o, tier, seed),
         _ => {}
     }
 }
